@@ -175,7 +175,17 @@ class Inst:
     def create(self):
         from vf import scen, machine as M
         self.cpu = M.Cpu(self.path)
-        M.set_memories(self.cpu, scen.MEMS, M.pattern_fill)
+        # the code RAM is two ADJACENT controllers with the seam inside the program (and a third seam inside the stack
+        # area): which controller serves an access must depend on the address only, never on the previous access
+        mems = []
+        for b, e in scen.MEMS:
+            if b == scen.RAM_B[0]:
+                mems += [(b, b + 0x28), (b + 0x28, e)]
+            elif b == 0:
+                mems += [(b, 0x6FF8), (0x6FF8, e)]
+            else:
+                mems.append((b, e))
+        M.set_memories(self.cpu, mems, M.pattern_fill)
 
     def reset(self):
         from vf import scen, machine as M
